@@ -141,11 +141,14 @@ func (v *VM) exec() {
 		case codeGlobalSet:
 			a := v.stack[len(v.stack)-1]
 			v.stack = v.stack[:len(v.stack)-1]
-			if codes[v.frame.N].B != 0 { // an untyped constant is stored as it is
+			switch codes[v.frame.N].B {
+			case 1: // an untyped constant is stored as it is
 				v.globals.Write(int(codes[v.frame.N].A), a)
-				break
+			case 2: // a variable declaration: the value has its own (or the default) type
+				v.globals.Write(int(codes[v.frame.N].A), a.assign(TypeNil))
+			default:
+				v.globals.Assign(int(codes[v.frame.N].A), a)
 			}
-			v.globals.Assign(int(codes[v.frame.N].A), a)
 
 		case codeGlobalZero:
 			i := &codes[v.frame.N]
